@@ -32,7 +32,9 @@ TRUSTED = ["lean/Tahoe/Mutable/ServerMap.lean is a hand transcription of ServerM
            "Publish.publish/update and ServermapUpdater._check_for_done that record state and call the original)"]
 ASSUMPTIONS = ["all verinfos in one servermap are of one format (IV all bytes or all None): Python raises TypeError when "
                "tuple comparison reaches None vs bytes",
-               "the offsets tuples of the verinfos in one servermap list the same keys in the same order",
+               "offsets tuples are compared as Python does (pair by pair, name before offset); names travel to the model as "
+               "their rank in string order.  Observed: the MDMF write proxy and the read proxy list the names in different "
+               "orders, so a servermap can hold one version under two verinfos (counted: grid-map-one-version-two-verinfos)",
                "'every version its survey observed' = every share in the servermap handed to Publish (shares the "
                "updater rejected as corrupt are not versions)"]
 
@@ -75,6 +77,13 @@ def gen_versions(rng, maxv=5):
             prefix = prefix[:-1] + bytes([rng.randrange(256)])
         offs = tuple((key, rng.choice([100, 200, 200, 300])) for key in mc.OFFSET_KEYS)
         v = (seq, rh, iv, segsize, datalen, k, n, prefix, offs)
+        if vers and rng.random() < 0.15:
+            # the same version as the publisher's write proxy and as a surveyor's read proxy describe it: the
+            # offsets tuple lists the same names in another order
+            w = rng.choice(vers)
+            perm = list(w[8])
+            rng.shuffle(perm)
+            v = w[:8] + (tuple(perm),)
         if v not in vers:
             vers.append(v)
     return vers
@@ -231,7 +240,7 @@ def parse_replay_vers(toks):
     for t in toks:
         f = t.split("/")
         unh = lambda s: b"" if s == "-" else bytes.fromhex(s)
-        offs = tuple(zip(mc.OFFSET_KEYS, [int(x) for x in f[8].split(",")])) if f[8] != "-" else ()
+        offs = mc.dec_offsets(f[8])
         res.append((int(f[0]), unh(f[1]), None if f[2] == "N" else unh(f[2]), int(f[3]), int(f[4]), int(f[5]), int(f[6]),
                     unh(f[7]), offs))
     return res
@@ -821,6 +830,8 @@ def run_history(ctx, h, acc):
                     acc["log_cases"].append({"kind": "grid-smap-oplog", "h": h, "line": line[:2000]})
                 for (mode, smap, st) in hooks.final_maps:
                     vers = mc.versions_of(smap)
+                    if len(set(v[:8] for v in vers)) < len(vers):
+                        ctx.count("grid-map-one-version-two-verinfos")
                     acc["sm_lines"].append("smap %s %s" % (mc.vtable(vers), " ".join(mc.smap_ops(smap, vers, hooks.sidx))))
                     acc["sm_impl"].append(mc.canon_smap(smap, vers, hooks.sidx))
                     acc["sm_cases"].append({"kind": "grid-smap", "h": h, "line": acc["sm_lines"][-1][:2000]})
@@ -847,9 +858,19 @@ def _corpus():
     ]
 
 
+
+def replay_case(replay):
+    """the case of a replay file: a violation's case, or the case of the first recorded disagreement"""
+    if replay.get("case"):
+        return replay["case"]
+    for d in replay.get("correspondence_disagreements", []) + replay.get("disagreements", []):
+        if d.get("case"):
+            return d["case"]
+    raise KeyError("replay file holds no case")
+
 def run(ctx):
     if ctx.replay:
-        c = ctx.replay["case"]
+        c = replay_case(ctx.replay)
         if c.get("kind") == "smap":
             run_smaps(ctx, [(parse_replay_vers(c["vers"]), [tuple(o) for o in c["ops"]])])
         elif c.get("kind") == "upd":
